@@ -19,11 +19,11 @@ echo "patch-only: build_errors=$b lib: $t"
 # demo only
 patch -p1 -R --quiet < "$D/patch.diff"
 patch -p1 --quiet < "$D/demo.diff" || { echo "RESULT demo-does-not-apply"; exit 1; }
-d0=$(run --lib --tests | tr '\n' ' ')
+d0=$(run --lib --tests ${SEED_TEST_ARGS:-} | tr '\n' ' ')
 echo "demo-only: $d0"
 # demo + patch
 patch -p1 --quiet < "$D/patch.diff" || { echo "RESULT patch-does-not-apply-on-demo"; exit 1; }
-d1=$(run --lib --tests | tr '\n' ' ')
+d1=$(run --lib --tests ${SEED_TEST_ARGS:-} | tr '\n' ' ')
 echo "demo+patch: $d1"
 ok=1
 [ "$b" = "0" ] || ok=0
